@@ -27,7 +27,9 @@ STUBS = silence_logging() + plain_error_messages()
 for _m in (G, NP, SP):
     if hasattr(_m, "docstring_warning"):
         _m.docstring_warning = lambda *a, **k: None
-SCHEMA_PATH = "/repo/docs/schema.json"
+import _griffe as _G
+
+SCHEMA_PATH = str(Path(_G.__file__).resolve().parents[2] / "docs" / "schema.json")  # the schema published by the tree under analysis (/repo/docs/schema.json)
 SCHEMA = json.load(open(SCHEMA_PATH))
 VALIDATOR = jsonschema.Draft7Validator(SCHEMA)
 
